@@ -1,0 +1,56 @@
+//go:build verif
+
+package lite
+
+import (
+	"time"
+
+	"go.minekube.com/gate/pkg/edition/java/proto/packet"
+	"go.minekube.com/gate/pkg/gate/proto"
+	"golang.org/x/sync/singleflight"
+)
+
+// Thin re-exports for the C32 check (verification harness only; no logic).
+
+// VerifFlightGroupC32 is the flightGroup interface of pingStatusCache.
+type VerifFlightGroupC32 interface {
+	DoChan(string, func() (any, error)) <-chan singleflight.Result
+}
+
+// VerifPingCacheC32 wraps a private pingStatusCache built with an injected clock and flight group.
+type VerifPingCacheC32 struct{ c *pingStatusCache }
+
+// VerifNewPingCacheC32 is newPingStatusCache.
+func VerifNewPingCacheC32(now func() time.Time, group VerifFlightGroupC32) *VerifPingCacheC32 {
+	return &VerifPingCacheC32{c: newPingStatusCache(now, group)}
+}
+
+func verifUnwrapC32(r *pingResult) (status string, err error, ok bool) {
+	if r == nil {
+		return "", nil, false
+	}
+	if r.res != nil {
+		status = r.res.Status
+	}
+	return status, r.err, true
+}
+
+// Load is pingStatusCache.load with string statuses.
+func (v *VerifPingCacheC32) Load(backend string, protocol int, routeGeneration uint64, ttl time.Duration, load func() (string, error)) (string, error) {
+	s, err, _ := verifUnwrapC32(v.c.load(pingKey{backend, proto.Protocol(protocol), routeGeneration}, ttl, func() *pingResult {
+		status, err := load()
+		if err != nil {
+			return &pingResult{err: err}
+		}
+		return &pingResult{res: &packet.StatusResponse{Status: status}}
+	}))
+	return s, err
+}
+
+// Get is pingStatusCache.get (the fast path of resolveStatusResponse).
+func (v *VerifPingCacheC32) Get(backend string, protocol int, routeGeneration uint64) (string, error, bool) {
+	return verifUnwrapC32(v.c.get(pingKey{backend, proto.Protocol(protocol), routeGeneration}))
+}
+
+// Reset is pingStatusCache.reset.
+func (v *VerifPingCacheC32) Reset() { v.c.reset() }
